@@ -246,6 +246,11 @@ PROPS["C03"]["level_text"] += (
 PROPS["C09"]["level_text"] += (
     "; the state the decoder starts from (tables, parameters preset as found, the docstring - the empty one included - marked as found at index 0) "
     "is re-translated and tied: C09_decoder_prologue_is_the_source")
+PROPS["C03"]["level_text"] += (
+    "; C03_blocks_to_bytes_is_the_source_in_outline: blocks_to_bytes is the translated prologue, the translated first pass (operands through from_arg in "
+    "order, additional args, free-variable shift), relax, assemble and four to_tuple")
+PROPS["C09"]["level_text"] += (
+    "; C09_unreferenced_entries_are_collected_as_the_source_does: the end of bytes_to_blocks (per-table additional_args under their constructors, in order)")
 PROPS["C04"]["level_text"] += (
     "; the four functions of _args.py are tied to the source by proof for ALL inputs (C04_args_functions_are_the_source: Gen/SrcArgs.v, "
     "re-translated on every run, equals Model/Args.v)")
